@@ -176,7 +176,7 @@ func (a *av1PktAdapter) Unmarshal(b []byte) ([]byte, error) {
 	}
 	return out, nil
 }
-func (a *av1PktAdapter) IsPartitionHead(b []byte) bool       { return false }
+func (a *av1PktAdapter) IsPartitionHead(b []byte) bool         { return false }
 func (a *av1PktAdapter) IsPartitionTail(m bool, _ []byte) bool { return m }
 
 func newDepack(kind int) rtp.Depacketizer {
